@@ -50,7 +50,10 @@ def loop_nodes(L):
     if form == "selfsignal":
         # the gate's target accumulates into the carried variable itself; a later body node (which also runs once at
         # entry, its inputs being supplied) emits the end-of-iteration signal the gate waits for
-        nodes.append({"k": "func", "name": "b0", "params": ["i"] + (["step"] if L.get("step_input") else []), "defaults": {}, "outs": ["i"], "expr": f"i + {stepexpr}"})
+        nodes.append({"k": "func", "name": "b0", "params": ["i"] + (["step"] if L.get("step_input") else []), "defaults": {}, "outs": ["i"], "expr": f"i + {stepexpr}",
+                      # (long form only) the gate's target itself also waits for the end-of-iteration signal: being routed to does not
+                      # exempt it from waiting for a FRESH one
+                      **({"wait_for": ["tick"]} if L.get("b0_waits") and max(2, k) > 2 else {})})
         # k == 2: b1(i, tot) accumulates and emits the signal one superstep after i changed; k > 2: pass-through nodes in between, so
         # the gate's data input changes SEVERAL supersteps before the signal it waits for is produced again
         src = "i"
@@ -58,7 +61,11 @@ def loop_nodes(L):
             nodes.append({"k": "func", "name": f"b{j}", "params": [src], "defaults": {}, "outs": [f"t{j}"], "expr": f"('t', {j}, {'i' if src == 'i' else src + '[2]'})"})
             src = f"t{j}"
         last = max(2, k) - 1
-        nodes.append({"k": "func", "name": f"b{last}", "params": [src, "tot"], "defaults": {}, "outs": ["tot"], "emit": ["tick"], "expr": f"tot + ({'i' if src == 'i' else src + '[2]'},)"})
+        if L.get("const_emitter") and max(2, k) > 2:
+            # the emitter's only data output never changes: each of its emissions is still a new production of the signal
+            nodes.append({"k": "func", "name": f"b{last}", "params": [src], "defaults": {}, "outs": ["cst"], "emit": ["tick"], "expr": "('cst',)"})
+        else:
+            nodes.append({"k": "func", "name": f"b{last}", "params": [src, "tot"], "defaults": {}, "outs": ["tot"], "emit": ["tick"], "expr": f"tot + ({'i' if src == 'i' else src + '[2]'},)"})
         stop = "done" if L["exit"] == "node" else "END"
         # (with pass-through nodes the signal only arrives two or more supersteps after i changed; a default-open target would
         # legitimately start again meanwhile, so the longer form uses a closed gate and is a plain while-loop)
@@ -177,7 +184,7 @@ def loop_values(L):
         vals["acc"] = ()
     if L.get("nullable"):
         vals["z"] = ("seed",)
-    if L["form"] == "selfsignal":
+    if L["form"] == "selfsignal" and not (L.get("const_emitter") and max(2, L["k"]) > 2):
         vals["tot"] = ()
     if L.get("exit_ext") and L["exit"] == "node" and L["form"] not in ("selfsignal", "chat"):
         vals["xd"] = 7
@@ -227,6 +234,10 @@ def eval_loop(L):
             if not i < limit:
                 break
         env = {"i": i, "tot": tot}
+        if L.get("const_emitter") and max(2, k) > 2:
+            env = {"i": i, "cst": ("cst",)}
+            traj.pop("tot", None)
+            traj["cst"] = [("cst",)]
         for j in range(1, max(2, k) - 1):
             env[f"t{j}"] = ("t", j, i)
             traj[f"t{j}"] = [("t", j, v) for v in traj["i"]]
